@@ -6,7 +6,7 @@
 pub uninterp spec fn spec_seal(key: Seq<u8>, nonce: Seq<u8>, aad: Seq<u8>, pt: Seq<u8>) -> Seq<u8>;
 pub uninterp spec fn spec_open(key: Seq<u8>, nonce: Seq<u8>, aad: Seq<u8>, ct: Seq<u8>) -> Option<Seq<u8>>;
 pub uninterp spec fn spec_x25519(k: Seq<u8>, u: Seq<u8>) -> Option<Seq<u8>>;   // None = all-zero shared secret
-pub uninterp spec fn spec_x25519_base(k: Seq<u8>) -> Option<Seq<u8>>;          // public key of k (None = orion error)
+pub uninterp spec fn spec_x25519_base(k: Seq<u8>) -> Seq<u8>;   // X25519(k, 9): the public key of k
 pub uninterp spec fn spec_sha256(data: Seq<u8>) -> Seq<u8>;
 pub uninterp spec fn spec_hmac(key: Seq<u8>, data: Seq<u8>) -> Seq<u8>;
 pub uninterp spec fn spec_hkdf(salt: Seq<u8>, ikm: Seq<u8>, info: Seq<u8>, len: nat) -> Seq<u8>;
@@ -37,7 +37,7 @@ pub broadcast proof fn axiom_x25519_len(k: Seq<u8>, u: Seq<u8>)
     ensures (#[trigger] spec_x25519(k, u)) matches Some(s) ==> s.len() == 32
 { admit(); }
 pub broadcast proof fn axiom_x25519_base_len(k: Seq<u8>)
-    ensures (#[trigger] spec_x25519_base(k)) matches Some(s) ==> s.len() == 32
+    ensures #[trigger] spec_x25519_base(k).len() == 32
 { admit(); }
 pub broadcast proof fn axiom_hkdf_len(salt: Seq<u8>, ikm: Seq<u8>, info: Seq<u8>, len: nat)
     ensures #[trigger] spec_hkdf(salt, ikm, info, len).len() == len
@@ -104,4 +104,184 @@ pub mod chapoly {
                      && final(dst_out)@.subrange((ciphertext_with_tag@.len() - 16) as int, old(dst_out)@.len() as int)
                           == old(dst_out)@.subrange((ciphertext_with_tag@.len() - 16) as int, old(dst_out)@.len() as int),
     { unimplemented!() }
+}
+
+pub mod orion_x25519 {
+    use vstd::prelude::*;
+    use super::*;
+    #[verifier::external_body]
+    pub struct PrivateKey { b: [u8; 32] }
+    #[verifier::external_body]
+    pub struct PublicKey { b: [u8; 32] }
+    #[verifier::external_body]
+    pub struct SharedKey { b: [u8; 32] }
+    impl PrivateKey {
+        pub uninterp spec fn view(&self) -> Seq<u8>;
+        #[verifier::external_body]
+        pub fn from_slice(s: &[u8]) -> (r: Result<PrivateKey, UnknownCryptoError>)
+            ensures r is Ok <==> s@.len() == 32, r matches Ok(k) ==> k.view() == s@
+        { unimplemented!() }
+    }
+    impl PublicKey {
+        pub uninterp spec fn view(&self) -> Seq<u8>;
+        #[verifier::external_body]
+        pub fn from_slice(s: &[u8]) -> (r: Result<PublicKey, UnknownCryptoError>)
+            ensures r is Ok <==> s@.len() == 32, r matches Ok(k) ==> k.view() == s@
+        { unimplemented!() }
+        /// orion: `impl TryFrom<&PrivateKey> for PublicKey` — scalar multiplication of the base point; cannot fail for a 32-byte key
+        #[verifier::external_body]
+        pub fn try_from(sk: &PrivateKey) -> (r: Result<PublicKey, UnknownCryptoError>)
+            ensures r is Ok, r matches Ok(k) ==> k.to_bytes_spec() == spec_x25519_base(sk.view())
+        { unimplemented!() }
+        /// canonical encoding of the decoded u-coordinate (differs from the input bytes for non-canonical inputs)
+        pub uninterp spec fn to_bytes_spec(&self) -> Seq<u8>;
+        #[verifier::external_body]
+        pub fn to_bytes(&self) -> (r: [u8; 32])
+            ensures r@ == self.to_bytes_spec()
+        { unimplemented!() }
+    }
+    impl SharedKey {
+        pub uninterp spec fn view(&self) -> Seq<u8>;
+        #[verifier::external_body]
+        pub fn unprotected_as_bytes(&self) -> (r: &[u8])
+            ensures r@ == self.view()
+        { unimplemented!() }
+    }
+    #[verifier::external_body]
+    pub fn key_agreement(private_key: &PrivateKey, public_key: &PublicKey) -> (r: Result<SharedKey, UnknownCryptoError>)
+        ensures
+            r is Ok <==> spec_x25519(private_key.view(), public_key.view()) is Some,
+            r matches Ok(k) ==> Some(k.view()) == spec_x25519(private_key.view(), public_key.view()),
+    { unimplemented!() }
+}
+
+#[verifier::external_body]
+pub struct Digest { b: [u8; 32] }
+impl Digest {
+    pub uninterp spec fn view(&self) -> Seq<u8>;
+    #[verifier::external_body]
+    pub fn as_ref(&self) -> (r: &[u8])
+        ensures r@ == self.view()
+    { unimplemented!() }
+}
+pub struct Sha256;
+impl Sha256 {
+    /// orion: Err only when more than 2^61 bytes are hashed, which a slice cannot hold on the 64-bit targets
+    #[verifier::external_body]
+    pub fn digest(data: &[u8]) -> (r: Result<Digest, UnknownCryptoError>)
+        ensures r is Ok, r matches Ok(d) ==> d.view() == spec_sha256(data@)
+    { unimplemented!() }
+}
+
+pub mod hmac {
+    use vstd::prelude::*;
+    use super::*;
+    #[verifier::external_body]
+    pub struct SecretKey { b: Vec<u8> }
+    #[verifier::external_body]
+    pub struct Tag { b: [u8; 32] }
+    pub struct HmacSha256;
+    impl SecretKey {
+        pub uninterp spec fn view(&self) -> Seq<u8>;
+        /// any key length is accepted (keys longer than the block are hashed, shorter ones zero-padded: RFC 2104)
+        #[verifier::external_body]
+        pub fn from_slice(s: &[u8]) -> (r: Result<SecretKey, UnknownCryptoError>)
+            ensures r is Ok, r matches Ok(k) ==> k.view() == s@
+        { unimplemented!() }
+    }
+    impl Tag {
+        pub uninterp spec fn view(&self) -> Seq<u8>;
+        #[verifier::external_body]
+        pub fn unprotected_as_bytes(&self) -> (r: &[u8])
+            ensures r@ == self.view()
+        { unimplemented!() }
+    }
+    impl HmacSha256 {
+        #[verifier::external_body]
+        pub fn hmac(secret_key: &SecretKey, data: &[u8]) -> (r: Result<Tag, UnknownCryptoError>)
+            ensures r is Ok, r matches Ok(t) ==> t.view() == spec_hmac(secret_key.view(), data@)
+        { unimplemented!() }
+    }
+}
+
+pub mod hkdf {
+    use vstd::prelude::*;
+    use super::*;
+    #[verifier::external_body]
+    pub fn derive_key(salt: &[u8], ikm: &[u8], info: Option<&[u8]>, dst_out: &mut [u8]) -> (r: Result<(), UnknownCryptoError>)
+        ensures
+            final(dst_out)@.len() == old(dst_out)@.len(),
+            r is Ok <==> 1 <= old(dst_out)@.len() <= 8160,
+            r is Ok ==> final(dst_out)@ == spec_hkdf(salt@, ikm@, opt_seq(info), old(dst_out)@.len()),
+    { unimplemented!() }
+}
+
+pub mod pbkdf2 {
+    use vstd::prelude::*;
+    use super::*;
+    #[verifier::external_body]
+    pub struct Password { b: Vec<u8> }
+    impl Password {
+        pub uninterp spec fn view(&self) -> Seq<u8>;
+        #[verifier::external_body]
+        pub fn from_slice(s: &[u8]) -> (r: Result<Password, UnknownCryptoError>)
+            ensures r is Ok, r matches Ok(k) ==> k.view() == s@
+        { unimplemented!() }
+    }
+    #[verifier::external_body]
+    pub fn derive_key(password: &Password, salt: &[u8], iterations: usize, dst_out: &mut [u8]) -> (r: Result<(), UnknownCryptoError>)
+        ensures
+            final(dst_out)@.len() == old(dst_out)@.len(),
+            r is Ok <==> iterations >= 1 && 1 <= old(dst_out)@.len() <= 0xffff_ffff * 32,
+            r is Ok ==> final(dst_out)@ == spec_pbkdf2(password.view(), salt@, iterations as nat, old(dst_out)@.len()),
+    { unimplemented!() }
+}
+
+pub mod getrandom {
+    use vstd::prelude::*;
+    use super::*;
+    pub struct Error;
+    #[verifier::external_body]
+    pub fn fill(dest: &mut [u8]) -> (r: Result<(), Error>)
+        ensures
+            final(dest)@.len() == old(dest)@.len(),
+            r is Ok,   // ASSUMED: the operating system's CSPRNG is available (otherwise the real code panics by design)
+            from_csprng(final(dest)@),
+    { unimplemented!() }
+}
+
+// zeroize 1.8: `Zeroize::zeroize` on byte slices / arrays / Vec overwrites every element with zero
+pub trait Zeroize {
+    spec fn zeroed(old_self: &Self, new_self: &Self) -> bool;
+    fn zeroize(&mut self)
+        ensures Self::zeroed(old(self), final(self));
+}
+impl Zeroize for [u8] {
+    open spec fn zeroed(o: &Self, n: &Self) -> bool { n@.len() == o@.len() && all_zero(n@) }
+    #[verifier::external_body]
+    fn zeroize(&mut self) { unimplemented!() }
+}
+impl<const N: usize> Zeroize for [u8; N] {
+    open spec fn zeroed(o: &Self, n: &Self) -> bool { all_zero(n@) }
+    #[verifier::external_body]
+    fn zeroize(&mut self) { unimplemented!() }
+}
+pub trait ZeroizeOnDrop {}
+
+/// zeroize::Zeroizing<Vec<u8>>: a wrapper that derefs to the vector (and zeroizes it when dropped)
+pub struct Zeroizing { pub v: Vec<u8> }
+impl Zeroizing {
+    pub open spec fn view(&self) -> Seq<u8> { self.v@ }
+    pub fn new(v: Vec<u8>) -> (r: Zeroizing)
+        ensures r@ == v@
+    { Zeroizing { v } }
+    pub fn as_ref(&self) -> (r: &[u8])
+        ensures r@ == self@
+    { self.v.as_slice() }
+}
+impl core::ops::Deref for Zeroizing {
+    type Target = Vec<u8>;
+    fn deref(&self) -> (r: &Vec<u8>)
+        ensures r@ == self@
+    { &self.v }
 }
